@@ -120,8 +120,8 @@ def main():
     for k, et in enumerate(types):
         dim = M.dim_of(et)
         variants = ["affine+renumbered", "polygon"] if dim == 2 else ["affine+renumbered"]
-        if et in ("HEXA8", "PRISM6"):
-            variants = variants + ["interior nodes moved"]     # straight edges, non-planar faces: genuinely trilinear geometry
+        if et in ("HEXA8", "PRISM6", "QUAD4", "TRI3"):
+            variants = variants + ["interior nodes moved"]     # 3D: straight edges, non-planar faces: genuinely trilinear geometry
         if thorough:
             variants = variants + ["plain"]
         for variant in variants:
@@ -132,13 +132,27 @@ def main():
             else:
                 mesh = M.mesh_3d(et, 2.0, 1.0, 1.5, 0.5, 3)
             A, t = np.eye(3), np.zeros(3)
+            lawkinds = [laws[(k + j) % 4] for j in range(2 if not thorough else 4)]
+            prebuilt = None
             if variant == "interior nodes moved":
                 Xm = mesh.coord.copy()
-                f = 1 + 0.2 * Xm[:, 2]                      # frustum: the box tapered along z (edges stay straight)
+                f = 1 + 0.2 * (Xm[:, 2] if dim == 3 else Xm[:, 1])   # frustum: the box tapered along z (edges stay straight); 2D: trapezium
                 Xm[:, 0] *= f
-                Xm[:, 1] *= f * (1 + 0.1 * Xm[:, 0])
+                if dim == 3:
+                    Xm[:, 1] *= f * (1 + 0.1 * Xm[:, 0])
+                mesh.coord = Xm
+                # the simulations exist and have assembled BEFORE the interior nodes are moved in place: the moved mesh is as valid
+                # a mesh as any other, and the solve must be the one of the mesh as it is now
+                prebuilt = []
+                for lk in lawkinds:
+                    ps_ = bool(rng.getrandbits(1))
+                    law_ = make_law(rng, lk, dim, ps_)
+                    sim_ = Simulations.Elastic(mesh, law_)
+                    sim_.Get_K_C_M_F()
+                    prebuilt.append((ps_, law_, sim_))
+                Xm = mesh.coord.copy()
                 inner = np.setdiff1d(np.arange(mesh.Nn), boundary_nodes(mesh))
-                Xm[inner] += np.array([[rng.randint(-8, 8) / 100 for _ in range(3)] for _ in inner])
+                Xm[inner] += np.array([[rng.randint(-8, 8) / 100 if c_ < dim else 0.0 for c_ in range(3)] for _ in inner])
                 mesh.coord = Xm
             if variant.startswith("affine"):
                 A, t = rand_affine(rng, dim)
@@ -151,11 +165,13 @@ def main():
             X = mesh.coord
             bnodes = boundary_nodes(mesh)
             interior = np.setdiff1d(np.unique(np.concatenate([g.connect.ravel() for g in mesh.Get_list_groupElem(dim)])), bnodes)
-            lawkinds = [laws[(k + j) % 4] for j in range(2 if not thorough else 4)]
-            for lk in lawkinds:
-                ps = bool(rng.getrandbits(1))
-                law = make_law(rng, lk, dim, ps)
-                simu = Simulations.Elastic(mesh, law)
+            for jl, lk in enumerate(lawkinds):
+                if prebuilt is not None:
+                    ps, law, simu = prebuilt[jl]
+                else:
+                    ps = bool(rng.getrandbits(1))
+                    law = make_law(rng, lk, dim, ps)
+                    simu = Simulations.Elastic(mesh, law)
                 G = np.zeros((3, 3))
                 G[:dim, :dim] = [[rng.randint(-8, 8) / 64 for _ in range(dim)] for _ in range(dim)]
                 a0 = np.array([rng.randint(-4, 4) / 8 if i < dim else 0.0 for i in range(3)])
